@@ -209,6 +209,9 @@ impl Analyzable for Statement
 			{
 				analyzer.is_in_block = false;
 
+				// This statement may itself be the naked else branch of another
+				// if statement; its own then branch is not.
+				analyzer.is_naked_else_branch = false;
 				analyzer.is_naked_then_branch = true;
 				let then_branch = Box::new(then_branch.analyze(analyzer));
 				analyzer.is_naked_then_branch = false;
